@@ -25,6 +25,9 @@ func main() {
 	if d := os.Getenv("VERIF_DIR"); d != "" {
 		verifDir = d
 	}
+	if d := os.Getenv("VERIF_REPO"); d != "" {
+		repoDir = d
+	}
 	switch os.Args[1] {
 	case "check":
 		if len(os.Args) < 3 {
